@@ -52,11 +52,13 @@ PRM_VERSIONS = {
     "WeibullLifetime": [dict(weibull_shape=2.0, weibull_scale=3.0), dict(weibull_shape=1.2, weibull_scale=3.0), dict(weibull_shape=2.0, weibull_scale=1.5), dict(weibull_shape=1.2, weibull_scale=1.5)],
     "FixedLifetime": [dict(mean=2.5), dict(mean=1.5), dict(mean=0.7), dict(mean=3.5)],
 }
-DRV = {"inflow": ["pos", "mid0", "imp:1:0", "pos~"], "stock": ["hump", "tail0", "inc", "hump~"], "simple": ["pos", "mid0", "imp:1:0", "pos~"]}
+DRV = {"inflow": ["pos", "mid0", "imp:1:0", "pos~", "zero"], "stock": ["hump", "tail0", "inc", "hump~", "zero"], "simple": ["pos", "mid0", "imp:1:0", "pos~", "zero"]}
 
 
 def drv_series(name, n, extra):
     """a trailing ~ = the same driver changed by a relative 2**-24 (a finite-difference step)"""
+    if name == "zero":  # an exactly all-zero driver (results, cohort tables included, must be those of a fresh stock)
+        return {k: 0.0 for k in dsm_impl.driver_series("pos", n, extra)}
     if name.endswith("~"):
         return {k: v * (1.0 + 2.0 ** -24) for k, v in dsm_impl.driver_series(name[:-1], n, extra).items()}
     return dsm_impl.driver_series(name, n, extra)
@@ -64,7 +66,7 @@ NAMES = ("stock", "inflow", "outflow")
 
 
 def ops_for(kind, dist):
-    ops = [dict(op="drv", v=k) for k in range(4)]
+    ops = [dict(op="drv", v=k) for k in range(5)]
     if kind != "simple":
         ops += [dict(op="prm", v=k) for k in range(4)] + [dict(op="prm", v="A"), dict(op="prm", v="F"), dict(op="scribble-param")]
         ops += [dict(op="read", what="sf"), dict(op="read", what="pdf")]
